@@ -334,21 +334,28 @@ PAGE_KNOWN = {"Type", "Parent", "Resources", "MediaBox", "CropBox", "TrimBox", "
 OP_VARIANT = {b"gs": b"GraphicsState", b"Tf": b"TextFont", b"Do": b"XObject", b"cs": b"FillColorSpace", b"CS": b"StrokeColorSpace", b"sh": b"Shade"}
 
 
+def model_num(v):
+    """operand values for the model: integral numbers as integers (the importer never looks inside a number)"""
+    if isinstance(v, float) and v == int(v):
+        return int(v)
+    if isinstance(v, list):
+        return [model_num(x) for x in v]
+    if isinstance(v, dict):
+        return {k: model_num(x) for k, x in v.items()}
+    return v
+
+
 def model_uses(toks):
-    """the uses list of the model: every operation that names a resource, in order (with repetitions), and
-    inline marked-content property dictionaries"""
+    """the uses list of the model: every operation that names a resource, in order (with repetitions), and the
+    property list of every BDC / DP (Op::BeginMarkedContent / MarkedContentPoint { properties: Some(p) }) as [p]"""
     out = []
-    stack = []
-    for t in toks:
-        if t[0] != "op":
-            stack.append(t)
-            continue
-        op = t[1]
-        names = [x[1] for x in stack if x[0] == "name"]
+    for op, args in G.operations(toks):
+        names = [x.s for x in args if isinstance(x, Name)]
         if op in OP_VARIANT and names:
             nm = names[0] if op == b"Tf" else names[-1]
             out.append(b"[N" + OP_VARIANT[op].hex().encode() + b"; N" + nm.hex().encode() + b";]")
-        stack = []
+        elif op in (b"BDC", b"DP") and len(args) >= 2:
+            out.append(b"[" + G.canon_model(model_num(args[1])) + b"]")
     return b"[" + b" ".join(out) + b"]"
 
 
@@ -593,6 +600,23 @@ def generate(rng, tier):
         sel = list(range(k)) if i % 3 else [rng.randrange(k) for _ in range(rng.randrange(1, 4))]
         hk = rng.choice(["none", "none", "render", "render-all", "ops", "decode-all", "fonts", "images"])
         yield page_case(rng, doc, sel, tags=["form-pattern"], model=False, jopts=PATTERN_JOPTS, hist=rnd_page_history(rng, doc, sel, hk))
+
+
+    # marked content: BMC / MP, BDC / DP with an inline property list, with references in it (to one object, shared between
+    # pages, a chain ending in a stream), a named property list in a form's resources; the operation sequence after the
+    # reload equals the source's, a reference standing for what it designates (G.ops_problem), copied once.
+    # And property lists that cannot be copied (a reference to nothing, directly / nested / behind an existing object):
+    # the import fails, or the new page has the source's operation sequence (never BDC turned into BMC, DP into MP).
+    for i in range(16 if quick else 240):
+        kinds = docs.MC_KINDS + docs.MC_BAD_KINDS
+        kind = kinds[i % len(kinds)]
+        doc = docs.gen_doc(rng)
+        changed = docs.plant_marked_content(doc, rng, kind)
+        k = len(doc.pages)
+        sel = list(range(k)) if i % 2 == 0 else changed + [rng.randrange(k) for _ in range(rng.randrange(0, 2))]
+        hk = rng.choice(["none", "none", "render", "ops", "decode-all", "touch", "new-object"])
+        yield page_case(rng, doc, sel, tags=["marked-content"] + (["malformed:" + kind] if kind in docs.MC_BAD_KINDS else []),
+                        kind="malformed" if kind in docs.MC_BAD_KINDS else "structured", hist=rnd_page_history(rng, doc, sel, hk))
 
 
 # The typed PatternDict has no field for /Type and /PatternType and no catch-all: the copy of a tiling pattern lacks both
